@@ -110,9 +110,9 @@ theorem within_window_iff (last now : Nat) :
 theorem within_window_self (n : Nat) : within_window n n = true := by
   rw [within_window_iff]; exact ⟨Nat.le_refl n, by simp [ONE_SECOND]⟩
 
-/-- two sources built from values of `S` that do not look out of date come from the same value -/
-theorem not_out_of_date (W : World) (S : List Bytes) (hinj : InjOn W S) (l n : Nat) (e' e : Option Bytes)
-    (he' : ∀ a, e' = some a → a ∈ S) (he : ∀ a, e = some a → a ∈ S)
+/-- two sources that do not look out of date against each other come from the same value of TZ
+(the source holds the text itself: no assumption on any hash) -/
+theorem not_out_of_date (W : World) (l n : Nat) (e' e : Option Bytes)
     (h : out_of_date (Source.new W l e') (Source.new W n e) = false) : e' = e := by
   cases e' with
   | none =>
@@ -130,7 +130,7 @@ theorem not_out_of_date (W : World) (S : List Bytes) (hinj : InjOn W S) (l n : N
       cases hm : W.ltMtime <;> simp [hm, out_of_date] at h
     | some b =>
       simp [Source.new, out_of_date] at h
-      rw [hinj a (he' a rfl) b (he b rfl) h]
+      rw [h]
 
 /-- what is known about a cache: it was filled under some value `e'` of TZ (a member of `S`);
 and either that is still the current value, or the cache was last checked before the ghost time
@@ -146,7 +146,7 @@ theorem default_ok (W : World) (S : List Bytes) (env : EnvVal) (g now : Nat)
 
 /-- one cache lookup: the invariant is kept, and the zone is the current one as soon as a second
 has passed since the last change -/
-theorem offset_ok (W : World) (S : List Bytes) (hinj : InjOn W S) (env : EnvVal) (g now : Nat) (c : Cache)
+theorem offset_ok (W : World) (S : List Bytes) (env : EnvVal) (g now : Nat) (c : Cache)
     (hcur : ∀ a, env_var env = some a → a ∈ S) (hc : CacheOK W S (env_var env) g c) :
     CacheOK W S (env_var env) g (Cache.offset W c now env).1 ∧
     ((Cache.offset W c now env).1.last_checked = c.last_checked ∨ (Cache.offset W c now env).1.last_checked = now) ∧
@@ -171,7 +171,7 @@ theorem offset_ok (W : World) (S : List Bytes) (hinj : InjOn W S) (env : EnvVal)
         cases h : out_of_date c.source (Source.new W now (env_var env)) <;> simp_all
       have hee : e' = env_var env := by
         rw [hsrc] at ho'
-        exact not_out_of_date W S hinj _ _ _ _ hS hcur ho'
+        exact not_out_of_date W _ _ _ _ ho'
       dsimp only
       rw [if_neg ho]
       refine ⟨⟨env_var env, hcur, rfl, ?_, Or.inl rfl⟩, Or.inr rfl, fun _ => ?_⟩
@@ -198,7 +198,7 @@ theorem stale_ok {W : World} {S : List Bytes} {cur cur' : Option Bytes} {g clock
   obtain ⟨e', hS, hsrc, hz, _⟩ := h
   exact ⟨e', hS, hsrc, hz, Or.inr (by omega)⟩
 
-theorem inner_offset_ok (W : World) (S : List Bytes) (hinj : InjOn W S) (s : State) (g t : Nat)
+theorem inner_offset_ok (W : World) (S : List Bytes) (s : State) (g t : Nat)
     (hI : Inv W S s g) :
     Inv W S (inner_offset W s t).1 g ∧ (inner_offset W s t).1.clock = s.clock ∧
     (inner_offset W s t).1.env = s.env ∧
@@ -209,7 +209,7 @@ theorem inner_offset_ok (W : World) (S : List Bytes) (hinj : InjOn W S) (s : Sta
   | some c =>
     dsimp only
     obtain ⟨hl, hok⟩ := hcs t c hc
-    obtain ⟨h1, h2, h3⟩ := offset_ok W S hinj s.env g s.clock c henv hok
+    obtain ⟨h1, h2, h3⟩ := offset_ok W S s.env g s.clock c henv hok
     refine ⟨⟨henv, ?_⟩, rfl, rfl, h3⟩
     intro t' c' hc'
     unfold update at hc'
@@ -226,7 +226,7 @@ theorem inner_offset_ok (W : World) (S : List Bytes) (hinj : InjOn W S) (s : Sta
   | none =>
     dsimp only
     have hok := default_ok W S s.env g s.clock henv
-    obtain ⟨h1, h2, h3⟩ := offset_ok W S hinj s.env g s.clock (Cache.default W s.clock s.env) henv hok
+    obtain ⟨h1, h2, h3⟩ := offset_ok W S s.env g s.clock (Cache.default W s.clock s.env) henv hok
     refine ⟨⟨henv, ?_⟩, rfl, rfl, h3⟩
     intro t' c' hc'
     unfold update at hc'
@@ -242,7 +242,7 @@ theorem inner_offset_ok (W : World) (S : List Bytes) (hinj : InjOn W S) (s : Sta
     · rw [if_neg ht] at hc'
       exact hcs t' c' hc'
 
-theorem step_ok (W : World) (S : List Bytes) (hinj : InjOn W S) (s : State) (g : Nat) (x : Step)
+theorem step_ok (W : World) (S : List Bytes) (s : State) (g : Nat) (x : Step)
     (hI : Inv W S s g) (hx : StepIn S x) : Inv W S (step W s x).1 (ghost s g x) := by
   obtain ⟨henv, hcs⟩ := hI
   cases x with
@@ -271,7 +271,7 @@ theorem step_ok (W : World) (S : List Bytes) (hinj : InjOn W S) (s : State) (g :
     intro t c hc
     obtain ⟨hl, hok⟩ := hcs t c hc
     exact ⟨Nat.le_trans hl (Nat.le_add_right _ _), hok⟩
-  | convert t l => exact (inner_offset_ok W S hinj s g t ⟨henv, hcs⟩).1
+  | convert t l => exact (inner_offset_ok W S s g t ⟨henv, hcs⟩).1
   | spawn t =>
     refine ⟨henv, ?_⟩
     intro t' c hc
@@ -285,14 +285,14 @@ def ghostRun (W : World) : State → Nat → List Step → Nat
   | _, g, [] => g
   | s, g, x :: xs => ghostRun W (step W s x).1 (ghost s g x) xs
 
-theorem exec_ok (W : World) (S : List Bytes) (hinj : InjOn W S) (h : List Step) :
+theorem exec_ok (W : World) (S : List Bytes) (h : List Step) :
     ∀ (s : State) (g : Nat), Inv W S s g → (∀ x ∈ h, StepIn S x) →
       Inv W S (exec W s h) (ghostRun W s g h) := by
   induction h with
   | nil => intro s g hI _; exact hI
   | cons x xs ih =>
     intro s g hI hx
-    exact ih _ _ (step_ok W S hinj s g x hI (hx x (List.mem_cons_self ..)))
+    exact ih _ _ (step_ok W S s g x hI (hx x (List.mem_cons_self ..)))
       (fun y hy => hx y (List.mem_cons_of_mem _ hy))
 
 theorem exec_append (W : World) (a b : List Step) : ∀ s, exec W s (a ++ b) = exec W (exec W s a) b := by
@@ -369,10 +369,10 @@ theorem init_ok (W : World) (e : EnvVal) (k : Nat) (h : List Step) : Inv W (valu
   · intro t c hc; simp [init] at hc
 
 /-- the conversion after a history: correct as soon as TZ never changed or changed ≥ 1 s ago -/
-theorem convert_ok (W : World) (S : List Bytes) (hinj : InjOn W S) (s : State) (g t : Nat) (l : Bool)
+theorem convert_ok (W : World) (S : List Bytes) (s : State) (g t : Nat) (l : Bool)
     (hI : Inv W S s g) (hg : g = 0 ∨ g + ONE_SECOND ≤ s.clock + 1) :
     zoneOfStep (step W s (.convert t l)) = some (zoneFor W (env_var s.env)) := by
-  have h := (inner_offset_ok W S hinj s g t hI).2.2.2 hg
+  have h := (inner_offset_ok W S s g t hI).2.2.2 hg
   unfold zoneOfStep step
   simp only [Option.map_some]
   rw [h, current_zone_eq]
@@ -380,15 +380,15 @@ theorem convert_ok (W : World) (S : List Bytes) (hinj : InjOn W S) (s : State) (
 theorem honoured_after_1s' (W : World) (e0 : EnvVal) (k0 : Nat) (p1 p2 : List Step) (chg : Step)
     (hchg : isChange chg = true) (hno : ∀ x ∈ p2, isChange x = false)
     (hwait : ONE_SECOND ≤ elapsed p2)
-    (hinj : InjOn W (valuesOf e0 (p1 ++ chg :: p2))) (t : Nat) (l : Bool) :
+    (t : Nat) (l : Bool) :
     zoneOfStep (step W (exec W (init e0 k0) (p1 ++ chg :: p2)) (.convert t l)) =
       some (zoneFor W (env_var (envAfter e0 (p1 ++ chg :: p2)))) := by
   let S := valuesOf e0 (p1 ++ chg :: p2)
-  have hI := exec_ok W S hinj (p1 ++ chg :: p2) (init e0 k0) 0 (init_ok W e0 k0 _) (stepIn_valuesOf e0 _)
+  have hI := exec_ok W S (p1 ++ chg :: p2) (init e0 k0) 0 (init_ok W e0 k0 _) (stepIn_valuesOf e0 _)
   have henv := (exec_clock_env W (p1 ++ chg :: p2) (init e0 k0)).1
   have henv' : (exec W (init e0 k0) (p1 ++ chg :: p2)).env = envAfter e0 (p1 ++ chg :: p2) := henv
   rw [← henv']
-  refine convert_ok W S hinj _ _ t l hI (Or.inr ?_)
+  refine convert_ok W S _ _ t l hI (Or.inr ?_)
   -- the ghost time is 1 + the clock at `chg`; the clock has advanced by `elapsed p2` since
   rw [ghostRun_append]
   show ghostRun W (step W (exec W (init e0 k0) p1) chg).1 (ghost (exec W (init e0 k0) p1) _ chg) p2 + ONE_SECOND ≤ _
@@ -402,33 +402,18 @@ theorem honoured_after_1s' (W : World) (e0 : EnvVal) (k0 : Nat) (p1 p2 : List St
 theorem honoured_without_change' (W : World) (e0 : EnvVal) (k0 : Nat) (h : List Step)
     (hno : ∀ x ∈ h, isChange x = false) (t : Nat) (l : Bool) :
     zoneOfStep (step W (exec W (init e0 k0) h) (.convert t l)) = some (zoneFor W (env_var e0)) := by
-  have hvals : ∀ v, Step.setTZ v ∉ h := fun v hv => by simpa [isChange] using hno _ hv
-  -- only the initial value occurs, so injectivity on the history's values is trivial
-  have hsub : ∀ a ∈ valuesOf e0 h, ∀ b ∈ valuesOf e0 h, a = b := by
-    intro a ha b hb
-    unfold valuesOf at ha hb
-    have hnil : h.filterMap stepValue = [] := by
-      rw [List.filterMap_eq_nil_iff]
-      intro x hx
-      cases x with
-      | setTZ v => exact absurd hx (hvals v)
-      | _ => rfl
-    rw [hnil, List.append_nil] at ha hb
-    cases e0 <;> simp [envValue] at ha hb
-    rw [ha, hb]
-  have hinj : InjOn W (valuesOf e0 h) := fun a ha b hb _ => hsub a ha b hb
-  have hI := exec_ok W _ hinj h (init e0 k0) 0 (init_ok W e0 k0 _) (stepIn_valuesOf e0 _)
+  have hI := exec_ok W _ h (init e0 k0) 0 (init_ok W e0 k0 _) (stepIn_valuesOf e0 _)
   rw [ghostRun_nochange W h hno] at hI
   have henv : (exec W (init e0 k0) h).env = envAfter e0 h := (exec_clock_env W h (init e0 k0)).1
   have hsame : envAfter e0 h = e0 := by
-    clear hI hinj hsub hvals henv
+    clear hI henv
     induction h generalizing e0 with
     | nil => rfl
     | cons x xs ih =>
       have hx : isChange x = false := hno x (List.mem_cons_self ..)
       have := ih e0 (fun y hy => hno y (List.mem_cons_of_mem _ hy))
       cases x <;> simp [isChange] at hx <;> simpa [envAfter] using this
-  have := convert_ok W _ hinj _ 0 t l hI (Or.inl rfl)
+  have := convert_ok W _ _ 0 t l hI (Or.inl rfl)
   rw [henv, hsame] at this
   exact this
 
